@@ -14,6 +14,11 @@ logging.disable(logging.CRITICAL)
 
 
 def oracle(case) -> Info:
+    with C.local_tz(len(repr(case))):  # the process's local time zone is part of the environment: results must not depend on it
+        return _oracle_tz(case)
+
+
+def _oracle_tz(case) -> Info:
     layout, list_ver, items, pads, apdu_dt, tagged = case[0], case[1], [tuple(i) for i in case[2]], list(case[3]), tuple(case[4]), case[5]
     prelude = case[6] if len(case) > 6 else "none"
     run_prelude(prelude)
